@@ -30,7 +30,8 @@ TRUSTED_BASE = [
 KANI_HARNESSES = {
     'C02': [('k2_output_array_box_drop_once', 'N = 2, owning payload'), ('k2_future_array_drop_exactly_one', 'N = 2'),
             ('k2_array_assume_init_identity', 'N = 2, all u16 values'), ('k1_pollarray_index_helpers', 'N = 3, all 27 states, unwind 5'),
-            ('k2_output_vec_box_drop_once', 'N = 2, owning payload, unwind 5'), ('k2_future_vec_drop_exactly_one', 'N = 2, unwind 5')],
+            ('k2_output_vec_box_drop_once', 'N = 2, owning payload, unwind 5'), ('k2_future_vec_drop_exactly_one', 'N = 2, unwind 5'),
+            ('k1_pollvec_index_helpers', 'N = 3, all 27 states, unwind 5')],
     'C04': [('k2_output_array_write_take_positional', 'N = 3, all u8 values, all write orders'),
             ('k2_output_vec_write_take_positional', 'N = 2, all u8 values, both write orders, unwind 5')],
 }
@@ -354,7 +355,7 @@ def cmd_check(args):
                 if exe is None:
                     uncovered_runs.append(dict(config=cfg_w, status='not run (witness build failed: %s)' % err[-200:]))
                     continue
-                props_w = [prop] + (['C01'] if prop in W.LIVENESS_VIA_C01 else [])
+                props_w = [prop] + (['C01', 'C20'] if prop in W.LIVENESS_VIA_C01 else [])
                 for (fam, cont), prop_w in [(t, p_) for p_ in props_w for t in WITNESS_FAMILIES[prop]]:
                     try:
                         pw = subprocess.run([exe, '--family', fam, '--container', cont, '--prop', prop_w, '--budget', W.BUDGET, '--seed', str(seed or 1)],
